@@ -205,7 +205,7 @@ func runC03(c *Ctx) {
 				}
 				path := filepath.Join(dir, fmt.Sprint("f", size))
 				os.WriteFile(path, b, 0o644)
-				for _, prog := range []string{"find all 'a' maybe 'b'", "find all at least 1 not ' '", "find last 3 'a'", "find skip 2 whole line", "replace all ('b' = x) with x x", "find all line start any", "find all (any = x) ' ' x", "find all 'b' whitespace"} {
+				for _, prog := range []string{"find all 'a' maybe 'b'", "find all at least 1 not ' '", "find last 3 'a'", "find skip 2 whole line", "replace all ('b' = x) with x x", "find all line start any", "find all (any = x) ' ' x", "find all 'b' whitespace", "find all whole file", "find all at least 1 whole line '\n'", "find all 'ab a' (at least 4095 any fewest) = mid 'b'"} {
 					prog, size := prog, size
 					if !c.Unit(func() string { return fmt.Sprintf("%s on a %d-byte file", prog, size) }) {
 						continue
